@@ -62,13 +62,22 @@ def corrupt(rng, res):
 
 def run(rep, tier, build, replay=None):
     rng = random.Random(common.seed() * 7919 + 6)
-    n = 6 if tier == 'quick' else 400
+    n = 8 if tier == 'quick' else 400
     cases = []
     for i in range(n):
         u = gendoc.gen_universe(rng, size=2, force={'ext'})
         names = [nm for nm, _ in u]
         res = dict(u)
-        if i % 3 == 0:
+        if i % 4 == 3 and 'xa:1' in names:
+            # a resource [new lexicon, an extension that is already installed (skipped), another new lexicon]: a failure in
+            # the last lexicon must undo the first one although a skipped lexicon lies in between
+            ilis = ['i%d' % j for j in range(1, 8)]
+            na = gendoc.gen_lexicon(rng, 'na', '1', 'en', ilis, '1.1', size=2)
+            nb = gendoc.gen_lexicon(rng, 'nb', '1', 'en', ilis, '1.1', size=3)
+            mixed = {'lmf_version': '1.1', 'lexicons': [na, copy.deepcopy(res['xa:1']['lexicons'][0]), nb]}
+            cases.append({'setup': [['add', res[nm]] for nm in names], 'target': ['add', mixed],
+                          'corrupted': corrupt(rng, mixed), 'desc': 'new lexicon, installed extension (skipped), new lexicon'})
+        elif i % 3 == 0:
             # several lexicons in one resource: failures in a later lexicon must undo the earlier ones
             multi = {'lmf_version': '1.3', 'lexicons': [copy.deepcopy(r['lexicons'][0]) for nm, r in u
                                                          if not r['lexicons'][0].get('extends')]}
